@@ -4,6 +4,8 @@ import (
 	"fmt"
 	"sort"
 	"strings"
+
+	"golang.org/x/tools/go/ssa"
 )
 
 // flatten a choice-free template into text with private-use placeholders.
@@ -138,11 +140,15 @@ func runC08(w *World) *Result {
 	r.Explanation = "Decides, for the Bash back end, the lexical context of every emitted hole that can carry user string data (STR/PROG classes): every line template of every converter method and helper routine is extracted from the converter's SSA by an abstract interpretation in a template domain and scanned with a Bash lexical scanner (quote state, command word, eval scope, echo option position); positional parameters of helper routines are linked to the classes passed at their call templates; the literal-text conversion function must neutralise the characters active inside double quotes. This is a necessary condition per (emitting site, hole) for string opacity."
 	r.NotDecided = "byte-for-byte fidelity of values at run time (what bash does with the emitted lines); embedded newlines in echo; locale effects."
 	rq := r.Rule("R-C08-quote", "every STR/PROG hole of every Bash line template sits in a double-quoted word at its innermost lexical level, outside eval arguments, not as echo's first argument, not in command position, and its quoting does not depend on the data", 20)
-	re := r.Rule("R-C08-escape", "the Bash literal-text conversion neutralises \\ \" $ and backquote", 1)
+	re := r.Rule("R-C08-escape", "the Bash literal-text conversion neutralises \\ \" $ and backquote; in both back ends no replacement of the conversion chain rewrites text an earlier one introduced", 3)
 	rr := r.Rule("R-C08-roundtrip", "no array element / run-time value is read back through an unquoted echo inside eval, and read uses -r", 2)
 	_ = rq
 	_ = re
 	_ = rr
+	EscapeOrderRule(w, "bash", r, "R-C08-escape")
+	EscapeOrderRule(w, "batch", r, "R-C08-escape")
+	r.Rule("R-C08-state", "converted literal text is not kept on the transpiler object from one target to the next (no state across Transpile calls)", 1)
+	c14TranspileState(w, r, "R-C08-state")
 	b, err := BuildBackend(w, "bash")
 	if err != nil {
 		r.Bad("R-C08-quote", "extract:bash", "-", err.Error())
@@ -379,5 +385,97 @@ func c08Escape(w *World, b *Backend, r *Result) {
 		r.Bad(rule, "escape:bash:StringToString", pos, fmt.Sprintf("literal text is emitted without neutralising %v (result template %s): a literal containing them breaks out of the double-quoted word or is expanded", miss, t))
 	} else {
 		r.Ok(rule, "escape:bash:StringToString", pos, "replacement chain covers \\ \" $ `: "+t.String())
+	}
+}
+
+// EscapeOrderRule: the literal-text conversion of a back end is a chain of replacements.
+// A replacement must not introduce text that a later replacement of the chain rewrites
+// (newline → !LF! placed before ! → ^! turns the inserted !LF! into ^!LF^!), and every
+// path through the function applies the escaping replacements (none is skipped by an
+// early return).
+func EscapeOrderRule(w *World, role string, r *Result, rule string) {
+	var fn *ssa.Function
+	for _, f := range w.Funcs(role) {
+		if f.Name() == "StringToString" && f.Signature.Recv() != nil {
+			fn = f
+		}
+	}
+	key := "escape:" + role + ":order"
+	if fn == nil {
+		r.Bad(rule, key, "-", "literal conversion method not found in the "+role+" converter")
+		return
+	}
+	type repl struct {
+		call     *ssa.Call
+		old, new string
+	}
+	var reps []repl
+	for _, b := range fn.Blocks {
+		for _, ins := range b.Instrs {
+			c, ok := ins.(*ssa.Call)
+			if !ok {
+				continue
+			}
+			if n := calleeName(c); n != "strings.ReplaceAll" && n != "strings.Replace" {
+				continue
+			}
+			o, ok1 := c.Call.Args[1].(*ssa.Const)
+			nw, ok2 := c.Call.Args[2].(*ssa.Const)
+			if !ok1 || !ok2 || o.Value == nil || nw.Value == nil {
+				r.Bad(rule, key, w.Pos(c.Pos()), "replacement with non-constant texts in the literal conversion")
+				return
+			}
+			reps = append(reps, repl{c, constStringVal(o), constStringVal(nw)})
+		}
+	}
+	if len(reps) == 0 {
+		r.Ok(rule, key, w.Pos(fn.Pos()), "no replacement chain (nothing can be re-escaped)")
+		return
+	}
+	// feeds: result of a flows (through phis) into the subject of b
+	var flows func(v ssa.Value, target *ssa.Call, seen map[ssa.Value]bool) bool
+	flows = func(v ssa.Value, target *ssa.Call, seen map[ssa.Value]bool) bool {
+		if seen[v] {
+			return false
+		}
+		seen[v] = true
+		for _, ref := range *v.Referrers() {
+			switch x := ref.(type) {
+			case *ssa.Call:
+				if x == target && x.Call.Args[0] == v {
+					return true
+				}
+				if n := calleeName(x); (n == "strings.ReplaceAll" || n == "strings.Replace") && x.Call.Args[0] == v {
+					if flows(x, target, seen) {
+						return true
+					}
+				}
+			case *ssa.Phi:
+				if flows(x, target, seen) {
+					return true
+				}
+			}
+		}
+		return false
+	}
+	bad := ""
+	for _, a := range reps {
+		for _, b := range reps {
+			if a.call == b.call || !flows(a.call, b.call, map[ssa.Value]bool{}) {
+				continue
+			}
+			if b.old != "" && strings.Contains(a.new, b.old) {
+				bad = fmt.Sprintf("the replacement %q → %q runs before %q → %q and introduces text the later one rewrites: the inserted %q becomes %q", a.old, a.new, b.old, b.new, a.new, strings.ReplaceAll(a.new, b.old, b.new))
+			}
+		}
+	}
+	if bad != "" {
+		r.Bad(rule, key, w.Pos(fn.Pos()), bad)
+	} else {
+		var ds []string
+		for _, a := range reps {
+			ds = append(ds, fmt.Sprintf("%q→%q", a.old, a.new))
+		}
+		r.Ok(rule, key, w.Pos(fn.Pos()), "replacement chain "+strings.Join(ds, ", ")+": no step rewrites text introduced by an earlier one")
 	}
 }
